@@ -90,6 +90,8 @@ func c14Prepare(e *runner.Env, tier string) ([]runner.Job, error) {
 	jobs := make([]runner.Job, len(vars))
 	errs := make([]error, len(vars))
 	var ovMu sync.Mutex
+	// (written once, before the parallel builds read it)
+	mf, mfErr := e.Modfile()
 	var wg sync.WaitGroup
 	sem := make(chan struct{}, 4)
 	for i, v := range vars {
@@ -124,9 +126,8 @@ func c14Prepare(e *runner.Env, tier string) ([]runner.Job, error) {
 				args = append(args, "-overlay", ov)
 			}
 			args = append(args, "-tags", tags)
-			mf, err := e.Modfile()
-			if err != nil {
-				errs[i] = err
+			if mfErr != nil {
+				errs[i] = mfErr
 				return
 			}
 			if mf != "" {
